@@ -1587,7 +1587,10 @@ func (bp *boundsProver) foundContracts(fn *ssa.Function) []foundContract {
 		vk := vk
 		if holds(func(ret *ssa.Return) (constraint, bool) {
 			v, ok := valueAt(vk, ret)
-			return geq(v, linConst(0), "result ≥ 0"), ok
+			if !ok {
+				return constraint{}, false
+			}
+			return geq(v, linConst(0), "result ≥ 0"), true
 		}) {
 			out = append(out, foundContract{K: vk.K, KF: vk.F, Kind: 0, desc: fmt.Sprintf("result %s is not negative", vk)})
 		}
@@ -1598,7 +1601,10 @@ func (bp *boundsProver) foundContracts(fn *ssa.Function) []foundContract {
 			pi, prm := pi, prm
 			if holds(func(ret *ssa.Return) (constraint, bool) {
 				v, ok := valueAt(vk, ret)
-				return gt(fb.lenOf(prm, ret, 0), v, "result below len(param)"), ok
+				if !ok {
+					return constraint{}, false
+				}
+				return gt(fb.lenOf(prm, ret, 0), v, "result below len(param)"), true
 			}) {
 				out = append(out, foundContract{K: vk.K, KF: vk.F, Kind: 1, P: pi, desc: fmt.Sprintf("result %s is a position in argument #%d", vk, pi)})
 				continue
